@@ -236,7 +236,7 @@ theorem readExprLoop_clean (pf : P (List Item)) (br : Bool) : ∀ (len : Nat) (x
           cases n with
           | zero => simp at hn
           | succ n =>
-            simp [readExprLoop, nextFrag, afterDot, consFst, imgL, Frag.img, Frag.isDescent]
+            simp [readExprLoop, nextFrag, afterDot, consFst, imgL, Frag.img]
         | cons g r' =>
           have hg : g.dotStart = true := hcl.1.2
           have hcl2 : cleanTail false (g :: r') = true := hcl.2
